@@ -807,7 +807,7 @@ def run(ctx):
 
     # ---- 1. copy_to_frontend
     cases = []
-    for _ in range(ctx.pick(450, 4000)):
+    for _ in range(ctx.pick(200, 2500)):
         cases.append(base(rng, "copy", dst_comp=rng.choice(COMPRESSORS + [None]), rechunk=rng.randint(0, 1), rechunk_to=rng.randint(1, 7),
                           proc=rng.choice(["single_thread", "threaded_mailbox"])))
     go("copy/frontend", cases,
@@ -827,13 +827,13 @@ def run(ctx):
     def rech_branch(c, o):
         return f"{c['parallel']}:{c['dest']}:rep{c['replace']}:re{c['rechunk']}:" + ("err" if " e=- " not in o else "ok")
 
-    cases = [rech_case("serial") for _ in range(ctx.pick(350, 3000))]
+    cases = [rech_case("serial") for _ in range(ctx.pick(160, 2000))]
     go("rechunker/serial", cases,
        "strax.rechunker in serial mode on the same layouts x compressor (4 + unchanged) x target size (1..7 rows + unchanged) x rechunk on/off x "
        "{new location, new location + replace, in place (temp dir) + replace}: the traced sequence of directory-level operations, the final source / "
        "destination / temp directories and the loaded chunks compared with the model; per-operation source snapshots feed the oracle",
        branch=rech_branch)
-    cases = [rech_case("thread") for _ in range(ctx.pick(150, 1200))]
+    cases = [rech_case("thread") for _ in range(ctx.pick(60, 700))]
     go("rechunker/thread", cases, "the same through parallel='thread' (mailbox + ThreadPoolExecutor(2))", branch=rech_branch)
     if ctx.thorough:
         cases = [rech_case("process") for _ in range(60)]
@@ -846,7 +846,7 @@ def run(ctx):
 
     # ---- 3. rechunk on load
     cases = []
-    for _ in range(ctx.pick(450, 4000)):
+    for _ in range(ctx.pick(200, 2500)):
         via = rng.choice(["context", "context", "loader"])
         proc = rng.choice(["single_thread", "threaded_mailbox"]) if via == "context" else "-"
         cases.append(base(rng, "rol", rol=1, source_size=rng.randint(1, 7), via=via, proc=proc,
@@ -859,7 +859,7 @@ def run(ctx):
 
     # ---- 4. per-chunk make + merge
     cases = []
-    n_lay = ctx.pick(26, 220)
+    n_lay = ctx.pick(12, 140)
     for _ in range(n_lay):
         proto = base(rng, "merge", style=rng.choice(["tiny", "empties", "mixed", "giant"]), n_rows=rng.randint(1, 10))
         n = len(proto["layout"])
@@ -882,7 +882,7 @@ def run(ctx):
        branch=lambda c, o: f"{c['proc']}:w{c['workers']}:jobs{min(len(c['sizes']), 4)}:re{c['rechunk']}:" + ("ok" if o.startswith("ok") else o.split(" ")[0]))
     # odd selections: out of order, incomplete, duplicated groups (correspondence only: outside the property's quantifier)
     odd = []
-    for _ in range(ctx.pick(40, 300)):
+    for _ in range(ctx.pick(25, 200)):
         proto = base(rng, "merge", style=rng.choice(["tiny", "mixed"]), n_rows=rng.randint(2, 8))
         n = len(proto["layout"])
         if n < 2:
